@@ -187,8 +187,9 @@ pub fn gen_spec(rng: &mut Rng, st: &mut Stats) -> Option<(CmdSpec, clap::Command
         }
         Err(p) => {
             st.count("gate.rejected");
-            if !p.loc.contains("debug_asserts") && !p.loc.contains("clap_builder") {
-                st.count(&format!("gate.rejected.other@{}", p.loc));
+            if st.verbose || std::env::var_os("VERIF_GATE_REASONS").is_some() {
+                let m: String = p.msg.chars().filter(|c| !c.is_ascii_digit()).take(70).collect();
+                st.count(&format!("gatereason.{}", m));
             }
             None
         }
